@@ -25,6 +25,7 @@ materializing the defaulted values can make the configuration archive somewhat
 more hermetic.
 """
 
+import dataclasses
 from typing import Any
 
 from fiddle._src import config
@@ -60,6 +61,15 @@ def materialize_defaults(value: Any) -> None:
           node.__signature_info__.parameters.values()
       ):
         if arg.default is arg.empty:
+          continue
+        if dataclasses.is_dataclass(
+            node.__fn_or_cls__
+        ) and config._field_uses_default_factory(  # pylint: disable=protected-access
+            node.__fn_or_cls__, arg.name
+        ):
+          # A dataclass field with a default_factory has no default *value*
+          # (its signature default is dataclasses' private `<factory>`
+          # marker); leaving it unset lets the dataclass call the factory.
           continue
         if arg.kind == arg.POSITIONAL_ONLY:
           # Positional-only arguments are stored and set by index.
